@@ -271,6 +271,17 @@ def run_unit(ctx):
     os.makedirs(builddir, exist_ok=True)
     n = 2500 if ctx.tier == "thorough" else 260
     cases = [dict(gen_case(rng, k), dir=builddir) for k in range(n)]
+    # fixed corner cases, present at every seed: a Write after a Resize to a shape whose byte size does not fit in uint64 (the
+    # handle's dataSize wraps; before /repo 0e100da writeChunkedData panicked slicing the buffer - found by the seed sweep at
+    # VERIF_SEED=5) and to a shape that just fits
+    W = {"op": "write"}
+    cases += [dict(c, dir=builddir) for c in (
+        {"sb": 0, "dtype": "uint32", "dims": [8, 2, 1, 13], "chunk": [2, 2, 1, 2], "maxdims": [U - 9, 2, U, U - 1],
+         "ops": [{"op": "resize", "dims": [U - 9, 2, 2, U - 1]}, W, {"op": "resize", "dims": [8, 2, 1, 13]}, W]},
+        {"sb": 2, "dtype": "float64", "dims": [4, 4], "chunk": [2, 2], "maxdims": [U, U],
+         "ops": [{"op": "resize", "dims": [2 ** 32, 2 ** 32]}, W, {"op": "resize", "dims": [2 ** 61, 1]}, W, {"op": "resize", "dims": [4, 6]}, W]},
+        {"sb": 3, "dtype": "uint8", "dims": [5], "chunk": [5], "maxdims": [U],
+         "ops": [{"op": "resize", "dims": [U]}, W, {"op": "resize", "dims": [U - 1]}, W, {"op": "resize", "dims": [7]}, W]})]
     outs = vlib.run_harness_parallel(H, "c13unit", cases, workers=8)
     violations, n_eval, n_acc, n_ref = [], 0, 0, 0
     distinct, opmix, classes = set(), {}, {}
